@@ -272,8 +272,10 @@ def oracle (toks : List String) (impl : String) : Option String :=
       if impl.startsWith "abort" || impl == "timeout" || impl.startsWith "panic" then pure "holds abort"
       else if impl == "untouched" then pure "fails the targeted message was not seen (attack not applied)"
       else
+        -- every message class is covered by `additive_attack_T` / `reveal_two_copies`: an altered message is
+        -- accepted with probability <= 3/|F| only, and only fields with |F| >= 2^32 - 5 are sampled
         let want := "ok " ++ showWires (inputs.map (evalPlain p prog)) ++ " -"
-        pure (if impl == want then "holds same"
+        pure (if impl == want then "fails undetected: the altered message was accepted by every honest helper (opened values unchanged)"
               else "fails changed: honest helpers opened values different from the true ones without aborting")
   | ["c04.reveal", f, _seed, x, ex, at', dest, delta] => do
       let p ← primeOf f
